@@ -10,7 +10,7 @@ rsync -a --exclude .git /repo/ $D/repo/
 (cd $D/repo && go build ./... 2>&1 | head -5)
 one() {
   p=$1; mkdir -p $D/v_$p && cp /verif/KNOWN_FINDINGS.json $D/v_$p/
-  out=$(VERIF_REPO=$D/repo VERIF_DIR=$D/v_$p /verif/bin/pulsarcheck -property $p 2>&1); r=$?
+  out=$(VERIF_REPO=$D/repo VERIF_DIR=$D/v_$p ${PULSARCHECK:-/verif/bin/pulsarcheck} -property $p 2>&1); r=$?
   if [ $r -ne 0 ]; then echo "ALARM $p: $(echo "$out" | grep -v "^VIOLATION\|^KNOWN-FINDING" | head -${LINES_MAX:-2} | cut -c1-${WIDTH:-360})" > $D/res_$p; fi
 }
 export -f one; export D
